@@ -38,6 +38,11 @@ KERNELS = {
     # guard subscripts, and the read of a possibly unbound local)
     "next_map_subchunk": {"owner": "C04"},
     "get_valid_value_extents": {"owner": "C04"},
+    "generate_ordered_map_to_left_both_unique_partial": {"owner": "C03", "mutated": [2]},
+    "generate_ordered_map_to_left_remaining": {"owner": "C03", "mutated": [1, 2]},
+    "generate_ordered_map_to_left_right_unique_remaining": {"owner": "C03", "mutated": [1]},
+    # translated and executed against the real kernel; no refinement theorem yet (the general finite-state kernel)
+    "generate_ordered_map_to_left_partial": {"owner": "C03", "mutated": [4, 5]},
 }
 C08_NOSRC = ("apply_spans_count", "apply_spans_index_of_first", "apply_spans_index_of_last")
 
@@ -257,8 +262,60 @@ def random_c04(rng, n_cases):
     return out
 
 
+# ----------------------------------------------------------------------------------------------------------------------
+# C03: the join `_partial` / `_remaining` kernels, called as the streamed drivers call them (every subscript is guarded by
+# the loop condition as long as i_max ≤ len(left), j_max ≤ len(right) and both result buffers have the same length)
+# ----------------------------------------------------------------------------------------------------------------------
+
+def _sorted_keys(rng, n, unique):
+    if unique:
+        return sorted(rng.sample(range(-5, 3 * n + 5), n))
+    return sorted(rng.choice([rng.randrange(-3, n + 2), rng.randrange(0, 4)]) for _ in range(n))
+
+
+def random_c03(rng, n_cases):
+    out = []
+    I = lambda v: {"int": int(v)}                     # noqa: E731,E741
+    for t in range(n_cases):
+        inv = rng.choice([-1, 2147483647, 4611686018427387904])
+        nl, nr = rng.randrange(0, 12), rng.randrange(0, 12)
+        cap = rng.choice([1, 2, 3, 5, 16])
+        what = t % 4
+        if what == 0:
+            left, right = _sorted_keys(rng, nl, True), _sorted_keys(rng, nr, True)
+            i, j = rng.randrange(0, nl + 1), rng.randrange(0, nr + 1)
+            r = rng.randrange(0, cap + 1) if rng.random() < 0.3 else 0
+            out.append(gcase("generate_ordered_map_to_left_both_unique_partial",
+                             [arr(left), arr(right), arr([7] * cap), I(inv), I(rng.randrange(0, 100)), I(i), I(j), I(r)],
+                             fuel=2 * (2 * nl + 2 * nr + cap) + 4, _from="random"))
+        elif what == 1:
+            i_max = rng.randrange(0, 12)
+            out.append(gcase("generate_ordered_map_to_left_remaining",
+                             [I(i_max), arr([7] * cap), arr([8] * cap), I(rng.randrange(0, 100)), I(rng.randrange(0, i_max + 2)),
+                              I(rng.randrange(0, cap + 1)), I(inv)], fuel=i_max + 1, _from="random"))
+        elif what == 2:
+            i_max = rng.randrange(0, 12)
+            out.append(gcase("generate_ordered_map_to_left_right_unique_remaining",
+                             [I(i_max), arr([8] * cap), I(rng.randrange(0, i_max + 2)), I(rng.randrange(0, cap + 1)), I(inv)],
+                             fuel=i_max + 1, _from="random"))
+        else:
+            left, right = _sorted_keys(rng, nl, False), _sorted_keys(rng, nr, False)
+            cap = rng.choice([1, 2, 3, 5, 16, 64])
+            i, j = (0, 0) if rng.random() < 0.6 else (rng.randrange(0, nl + 1), rng.randrange(0, nr + 1))
+            # start of a key run on both sides only (the kernel is re-entered either in `inner` state or at run starts)
+            while 0 < i < nl and left[i - 1] == left[i]:
+                i -= 1
+            while 0 < j < nr and right[j - 1] == right[j]:
+                j -= 1
+            out.append(gcase("generate_ordered_map_to_left_partial",
+                             [arr(left), I(nl), arr(right), I(nr), arr([7] * cap), arr([8] * cap), I(inv), I(rng.randrange(0, 50)),
+                              I(rng.randrange(0, 50)), I(i), I(j), I(0), I(0), I(0), I(-1), I(-1), {"bool": False}],
+                             fuel=4 * (nl + nr + cap) + 16, _from="random"))
+    return out
+
+
 DERIVE = {"C08": derive_c08, "C09": derive_c09, "C04": derive_c04}
-RANDOM = {"C08": random_c08, "C09": random_c09, "C04": random_c04}
+RANDOM = {"C08": random_c08, "C09": random_c09, "C04": random_c04, "C03": random_c03}
 
 
 def extra_cases(owner, cases, tier, rng):
